@@ -37,7 +37,7 @@ CLAIMS = {
             '(which registered the waker) and then leave the abstract state (consumed boundary, buffered queue) unchanged. The executor-equivalence statement itself, select! re-arming and channel wakeups are assumed (DESIGN.md section 6).', '5 C16'),
     'C05': ('proof', 'Verus discharges, on handle_message/handle_packet and the ContextHandle operations extracted from the working tree, that a pending entry is registered under the '
             'action id of its own channel, that an acknowledgement removes exactly the first pending entry with its (type, id) key and nothing else, '
-            'and (as a call-site precondition of oneshot::Sender::send) that an acknowledgement is only ever sent to the operation keyed by it.', '5 C05'),
+            '(as a call-site precondition of oneshot::Sender::send) that an acknowledgement is only ever sent to the operation keyed by it, and that the operation is completed with exactly the acknowledgement received (content unchanged).', '5 C05'),
     'C06': ('proof', 'Verus discharges, on ContextHandle::publish extracted from the working tree, the whole handshake as a postcondition over the messages handed to the context '
             'and the (prophesied) outcomes of their channels: QoS0 = one FireAndForget PUBLISH; QoS1 = one PUBLISH (DUP=0,QoS bits 01) keyed by PUBACK(id), result by reason threshold 0x80; '
             'QoS2 = PUBLISH keyed by PUBREC(id), then exactly one PUBREL with the PUBREC id iff reason < 0x80, result by PUBCOMP; handle_message adds: written once as given, stored copy has DUP=1.', '5 C06'),
@@ -61,7 +61,7 @@ CLAIMS = {
     'C12': ('proof', 'Verus discharges: validate_packet_size is Ok iff no limit or len <= M; an oversize message leaves wire, queues and quota untouched and is '
             'answered with MaximumPacketSizeExceeded only; an accepted message is written as one whole packet; CONNACK stores M.', '5 C12'),
     'C13': ('proof', 'Verus discharges connect()/authorize() outcome-by-first-inbound-item (ConnectRsp / ConnectError by the 0x80 threshold / AuthRsp / SocketClosed / CodecError / error for any other packet), '
-            'exactly one packet written and refusal before writing; and for the two select! arms and the prologue of run(), extracted as functions: Ok exit exactly after the user DISCONNECT was written '
+            'exactly one packet written and refusal before writing; and for the two select! arms and the prologue of run(), extracted as functions (the rest of run() must be exactly the select! loop skeleton, else undecided; each arm is held to do, with the very item it received, exactly one handler step: packet_step / message_step): Ok exit exactly after the user DISCONNECT was written '
             '(nothing after it) or server DISCONNECT reason 0, Disconnected carrying the server packet otherwise, SocketClosed on end of stream / write error, HandleClosed when all handles are gone, CodecError for undecodable input, Continue otherwise.', '5 C13'),
     'C14': ('proof', 'Safety half only, as per-call contracts under the assumed channel semantics: every handle operation returns ContextExited when unbounded_send fails (before any await) or when its '
             'receiver is cancelled (both QoS2 phases); reset_session drops every sender; SubscribeStream yields what is buffered and then None exactly when the channel is closed. '
